@@ -431,6 +431,16 @@ func genTransportWalk(r *rng) []tStep {
 		if r.chance(3) {
 			st = tStep{Kind: "gincomingrequest", P: 3, Rid: 60 + uint64(r.intn(3))} // a graphsync request that is not ours
 		}
+		if r.chance(5) && c.k.Resp == 1 {
+			// a graphsync request that carries some other kind of data-transfer request (cancel, update, voucher)
+			kinds := []msgSpec{reqOf(mtCancel, c.k.Tid), reqOf(mtCancel, c.k.Tid), {IsReq: true, Type: mtUpdate, Tid: c.k.Tid, Pause: true},
+				{IsReq: true, Type: mtVoucher, Tid: c.k.Tid, VType: "T1", VNode: 4}}
+			m := kinds[r.intn(len(kinds))]
+			st = tStep{Kind: "gincomingrequest", P: c.k.Init, Rid: 80 + uint64(r.intn(3)), Msg: &m, Oracle: ans()}
+			if m.Type != mtCancel {
+				c.rids = append(c.rids, st.Rid)
+			}
+		}
 		steps = append(steps, st)
 	}
 	return steps
